@@ -324,9 +324,11 @@ def modem_specs(max_order=None):
                 continue
             out.append(modem(f"PSK{M}(gray={gray})", "PSKModulator", "PSKDemodulator", M.bit_length() - 1, {"order": M, "gray_coding": gray}, order=M,
                              registry=("pskmodulator", "pskdemodulator") if (M == 8 and gray) else None))
-    for M in tier([4, 16], [4, 16, 64]):
+    for M in [4, 16, 64]:
         for gray in (True, False):
             for nz in (True, False):
+                if TIER == "quick" and M > 16 and not (gray and nz):
+                    continue
                 out.append(modem(f"QAM{M}(gray={gray},normalize={nz})", "QAMModulator", "QAMDemodulator", M.bit_length() - 1,
                                  {"order": M, "gray_coding": gray, "normalize": nz}, order=M))
     if TIER == "thorough":
